@@ -141,6 +141,9 @@ impl Check for Identity {
     fn components(&self) -> serde_json::Value {
         serde_json::json!({"real": ["identity_verifier::storage::{verify_identity, validate_claim}", "claim_topics_and_issuers::storage", "identity_registry_storage (add_identity, stored_identity)", "identity_claims (add/remove/get)", "claim_issuer helpers: key registry, expiry, revocation, nonce, Ed25519Verifier", "host ed25519_verify"], "stub": ["none (signatures are produced with ed25519-dalek in the harness)"]})
     }
+    fn clock_step(&self, n: u32) -> Option<Step> {
+        Some(Step::AdvanceTime { secs: n as u64 * 5 })
+    }
     fn dup_ok(&self, _s: &Step) -> bool {
         true
     }
@@ -263,7 +266,7 @@ impl Check for Identity {
                     }
                 }
                 Step::Bump { i, inv, t } => { IssuerClient::new(e, &issuers[*i]).bump(&idents[*inv], t); *m.nonce.entry((*i, *inv, *t)).or_insert(0) += 1; st.hit("fault.nonce_bumped"); }
-                Step::AdvanceTime { secs } => { m.now += secs; e.ledger().set_timestamp(m.now); st.seconds += secs; }
+                Step::AdvanceTime { secs } => { m.now += secs; e.ledger().set_timestamp(m.now); let l = e.ledger().sequence(); e.ledger().set_sequence_number(l + (*secs / 5).min(6_000_000) as u32); st.seconds += secs; st.ledgers += secs / 5; st.hit("clock.advance"); }
                 Step::RemoveClaim { inv, i, t } => {
                     let cid = ic::generate_claim_id(e, &issuers[*i], *t);
                     let g = IdentClient::new(e, &idents[*inv]).try_remove_claim(&cid).is_ok();
